@@ -350,7 +350,7 @@ def load_corpus(vm_size):
 
 def gen_cases(rng, tier, pool, hashes, vm_size):
     cases = load_corpus(vm_size)
-    n_rand = 260 if tier == "quick" else 2600
+    n_rand = 260 if tier == "quick" else 1300
     sizes = list(range(1, 17))
     # every initial size 1..16 with every number of growths 0..3, get_handle style
     for s in sizes:
@@ -361,11 +361,15 @@ def gen_cases(rng, tier, pool, hashes, vm_size):
         for r in (1, 2, 3) + ((4, 5) if tier != "quick" else ()):
             for style in ("plain", "direct"):
                 cases.append(gen_cache_case(rng, pool, hashes, vm_size, r, mode, style, vm_size))
+    big = 0
     for _ in range(n_rand):
         s = rng.choice(sizes + [vm_size] * 6 + [rng.randint(17, 40)])
         r = rng.choice([0, 1, 1, 2, 2, 3, 3])
-        if tier != "quick" and rng.random() < 0.1:
-            r = rng.choice([4, 5, 6])
+        # growths 4..6 take the table to 256..1024 slots; every operation dumps the table, so one such case is
+        # 50..400 MB of driver output: a dozen of them, not a tenth of all cases
+        if tier != "quick" and big < 12 and rng.random() < 0.02:
+            big += 1
+            r = rng.choice([4, 4, 5, 6])
         mode = rng.choice(["colliding", "colliding", "adjacent", "realistic", "prefixes", "special", "random"])
         style = rng.choice(["plain", "plain", "plain", "direct", "dups", "nullhost"])
         cases.append(gen_cache_case(rng, pool, hashes, s, r, mode, style, vm_size))
@@ -463,6 +467,8 @@ def case_fails_same(drv, tmpdir, ops, kind, tag):
     with open(path, "w") as f:
         f.write("\n".join(op_line(o) for o in ops) + "\n")
     rc, out, se = run_driver(drv, path, timeout=60)
+    if rc == -9:
+        return False, None          # stopped by this harness's time limit: not a reproduction
     v = judge_case(ops, out)
     if v is None and rc != 0:
         v = ("crash", len(out), se[-300:])
@@ -579,6 +585,7 @@ def run_dlcache(ctx, lib=None, cases=None):
     distinct = set()
     failures = {}
     samples = []
+    timed_out = 0
     for ci, (ch, (rc_c, out_c, err_c, rc_m, out_m, err_m)) in enumerate(zip(chunks, outs)):
         if rc_m != 0 and first_diff is None:
             first_diff = {"error": "model runner failed", "stderr": err_m[-600:]}
@@ -589,6 +596,11 @@ def run_dlcache(ctx, lib=None, cases=None):
             truncated = len(oc) < len(ops)
             # -- the property's oracle on the real outputs
             v = judge_case(ops, oc)
+            if rc_c == -9 and truncated:
+                # the driver was stopped by the time limit of this harness (loaded machine, large dumps): the rest of
+                # the chunk did not run; that is no statement about the code
+                timed_out += 1
+                break
             if v is None and truncated:
                 v = ("crash", len(oc), "driver output ends early")
             if v is not None:
@@ -695,6 +707,7 @@ def run_dlcache(ctx, lib=None, cases=None):
         ctx.sample(s, limit=8)
     ctx.coverage.setdefault("parts", {})["dlcache"] = {
         "cases": len(cases), "operations_compared_line_by_line": res["evaluations"] - len(allnames),
+        "chunks_stopped_by_the_harness_time_limit(rest of the chunk not run, not judged)": timed_out,
         "hash_string_values_compared(model vs front/hash.c)": len(allnames),
         "hash_model": "modelled in Coq (DlCacheModel.hash_string, signed char) and compared with the C function on every "
                       "candidate name incl. %d names with bytes >= 0x80, %d names of >= 100 bytes and the empty name; the table "
@@ -1063,6 +1076,7 @@ def _run_tab(ctx, label, lib, drvname, cases, op_line_fn, op_show_fn, judge_fn, 
     distinct = set()
     grown_hist = collections.Counter()
     size_hist = collections.Counter()
+    timed_out = 0
     for ch, (rc_c, out_c, err_c, rc_m, out_m, err_m) in zip(chunks, outs):
         if rc_m != 0 and first_diff is None:
             first_diff = {"error": "model runner failed", "stderr": err_m[-600:]}
@@ -1072,6 +1086,9 @@ def _run_tab(ctx, label, lib, drvname, cases, op_line_fn, op_show_fn, judge_fn, 
             om = out_m[pos:pos + len(ops)]
             truncated = len(oc) < len(ops)
             v = judge_fn(ops, oc)
+            if rc_c == -9 and truncated:
+                timed_out += 1
+                break
             if v is None and truncated:
                 v = ("crash", len(oc), "driver output ends early")
             if v is not None:
@@ -1115,6 +1132,8 @@ def _run_tab(ctx, label, lib, drvname, cases, op_line_fn, op_show_fn, judge_fn, 
         with open(path, "w") as f:
             f.write("\n".join(op_line_fn(o) for o in ops) + "\n")
         rc, out, se = run_driver(drv, path, timeout=60)
+        if rc == -9:
+            return False, None
         v = judge_fn(ops, out)
         if v is None and rc != 0:
             v = ("crash", len(out), se[-300:])
@@ -1158,7 +1177,8 @@ def _run_tab(ctx, label, lib, drvname, cases, op_line_fn, op_show_fn, judge_fn, 
     if first_diff is not None:
         ctx.correspondence_broken(corr_name, first_diff)
     ctx.count(evaluations=evals, nontrivial=len(distinct))
-    return {"cases": len(cases), "operations_compared_line_by_line": evals, "initial_sizes": dict(sorted(size_hist.items())),
+    return {"cases": len(cases), "operations_compared_line_by_line": evals,
+            "chunks_stopped_by_the_harness_time_limit(rest of the chunk not run, not judged)": timed_out, "initial_sizes": dict(sorted(size_hist.items())),
             "resizes_crossed(observed)": dict(sorted(grown_hist.items())), "distinct_cases_that_grew": len(distinct),
             "first_diff": first_diff}
 
